@@ -123,7 +123,7 @@ func (g *GoFile) StructWithMarker(marker string) string {
 	re := markerRe(marker)
 	var names []string
 	for k, txt := range g.Decls {
-		if strings.HasPrefix(k, "type ") && re.MatchString(txt) {
+		if strings.HasPrefix(k, "type ") && re.MatchString(txt) && !strings.Contains(txt, `:"cb_`) {
 			names = append(names, strings.TrimPrefix(k, "type "))
 		}
 	}
